@@ -243,8 +243,11 @@ def history_strategy(tier):
         n = draw(st.integers(2, 7))
         ops = []
         for _ in range(draw(st.integers(2, 14))):
-            k = draw(st.sampled_from(["node", "edge", "edge", "edge", "remove", "check"]))
-            if k == "node":
+            k = draw(st.sampled_from(["node", "edge", "edge", "edge", "remove", "check", "refused_edge"]))
+            if k == "refused_edge":
+                # add_child on a parent that is not (or no longer) in the graph: documented to raise ValueError
+                ops.append(["refused_edge", draw(st.integers(0, n - 1)), draw(st.integers(0, n - 1))])
+            elif k == "node":
                 ops.append(["node", draw(st.integers(0, n - 1))])
             elif k == "edge":
                 i = draw(st.integers(0, n - 2))
@@ -268,6 +271,7 @@ def exec_history(case):
     present, edges = [], set()
     mutations_after_query = 0
     queried = False
+    refused = 0
     for op in case["ops"]:
         if op[0] == "node":
             if op[1] not in present:
@@ -284,6 +288,18 @@ def exec_history(case):
             if j not in present:
                 present.append(j)
             edges.add((i, j))
+        elif op[0] == "refused_edge":
+            i, j = op[1], op[2]
+            if i in present:
+                continue
+            refused += 1
+            try:
+                g.add_child(objs[i], objs[j])
+                res.violations.append(Violation("unknown_parent_accepted", f"add_child({i}, {j}) accepted although {i} is not in the graph; {case}",
+                                                "graph.after_mutation.unknown_parent_accepted"))
+                break
+            except ValueError:
+                pass  # documented; the graph is the one built so far and is queried again below
         elif op[0] == "remove":
             i = op[1]
             if i not in present or any(b == i for _a, b in edges):
@@ -308,6 +324,8 @@ def exec_history(case):
             break
     res.nontrivial = mutations_after_query >= 2
     res.classes.append("removal" if any(o[0] == "remove" for o in case["ops"]) else "growth_only")
+    if refused:
+        res.classes.append("refused_add_child")
     return res
 
 
